@@ -250,8 +250,13 @@ theorem c08_admits_class_renamed (O : Oracles) (S : String → String → Bool)
   cases cls with
   | struct c fields defaults =>
     simp only [inSchemaFragment, fragF, and_true_iff'] at hfrag
-    obtain ⟨⟨hni, hncol⟩, ⟨⟨hnd, hdef⟩, hfp⟩⟩ := hfrag
-    have hdef' : defaults = [] := by simpa using hdef
+    obtain ⟨⟨hni, hncol⟩, ⟨hnd, hfp⟩⟩ := hfrag
+    have hdef' : defaults = [] := by
+      cases j with
+      | dict r0 =>
+        simp only [renameSafe, and_true_iff'] at hsafe
+        simpa using hsafe.1.1
+      | _ => simp [renameSafe] at hsafe
     subst hdef'
     have hin : c.inline = false := by simpa using hni
     simp only [ClassRefsFaithful] at hrefs
@@ -264,7 +269,7 @@ theorem c08_admits_class_renamed (O : Oracles) (S : String → String → Bool)
     simp only [renameSafe, and_true_iff'] at hsafe
     simp only [renameDoc]
     refine c08_jsV_classObjM _ S km c (emitP true fields) r hstr ?_ ?_ hprops hreq haddl
-    · rw [emitP_names]; exact hsafe.1
+    · rw [emitP_names]; exact hsafe.1.2
     · rw [emitP_names]; exact hsafe.2
   | _ => simp [inSchemaFragment] at hfrag
 
